@@ -149,8 +149,36 @@ def callback_of(prog, fi: FuncInfo, call: ast.Call) -> Callback | None:
     for c in cands:
         cb = resolve_callback(prog, fi, c, node)
         if cb is not None:
+            _note_group_names(prog, fi, call, cb)
             return cb
     return None
+
+
+def _note_group_names(prog, fi: FuncInfo, call: ast.Call, cb: "Callback") -> None:
+    """Named groups of the pattern the callback is run over: m.group("dots") is group 3 when the pattern says so."""
+    try:
+        from ..constfold import Folder, RegexConst
+        import re._parser as _rp  # type: ignore[import-not-found]
+
+        folder = getattr(prog, "_cb_folder", None)
+        if folder is None:
+            folder = prog._cb_folder = Folder(prog.repo)
+        nm = prog.resolve_call(fi, call)
+        pat_e = call.args[0] if nm in ("re.sub", "re.subn") and call.args else (call.func.value if isinstance(call.func, ast.Attribute) else None)
+        if pat_e is None:
+            return
+        v = folder.eval(pat_e, fi.module, {}, fi)
+        pattern, flags = (v.pattern, v.flags) if isinstance(v, RegexConst) else ((v, 0) if isinstance(v, str) else (None, 0))
+        if pattern is None:
+            return
+        gd = dict(_rp.parse(pattern, flags).state.groupdict)
+        if gd:
+            table = getattr(prog, "_cb_group_names", None)
+            if table is None:
+                table = prog._cb_group_names = {}
+            table[cb.func.qual] = gd
+    except Exception:  # noqa: BLE001 - names stay unresolved: the rule then reports what it cannot read
+        return
 
 
 def group_index(prog, fi: FuncInfo, e: ast.AST, node: Node, mparam: str | None = None, _depth: int = 0) -> int | None:
@@ -168,9 +196,13 @@ def group_index(prog, fi: FuncInfo, e: ast.AST, node: Node, mparam: str | None =
             return 0
         if len(e.args) == 1 and isinstance(e.args[0], ast.Constant) and isinstance(e.args[0].value, int):
             return e.args[0].value
+        if len(e.args) == 1 and isinstance(e.args[0], ast.Constant) and isinstance(e.args[0].value, str):
+            return getattr(prog, "_cb_group_names", {}).get(fi.qual, {}).get(e.args[0].value)
         return None
     if isinstance(e, ast.Subscript) and is_match(e.value) and isinstance(e.slice, ast.Constant) and isinstance(e.slice.value, int):
         return e.slice.value
+    if isinstance(e, ast.Subscript) and is_match(e.value) and isinstance(e.slice, ast.Constant) and isinstance(e.slice.value, str):
+        return getattr(prog, "_cb_group_names", {}).get(fi.qual, {}).get(e.slice.value)
     if isinstance(e, ast.Name):
         defs = flow.reaching(node, e.id)
         vals: set = set()
